@@ -290,7 +290,7 @@ pub fn apply(b: &Built, op: &Op) -> Presented {
             p.entries.insert(at, p.entries[src].clone());
             p.offered.insert(at, p.offered[src]);
             p.observe.insert(at, false);
-            p.focus = at.min(src + 1);
+            p.focus = at;
         }
         Op::AppendForeign { same_info } => {
             let key = 3 + (n % 3);
@@ -532,6 +532,9 @@ pub fn judge(b: &Built, op: &Op, obs: &mut Obs) -> Result<u64, Fail> {
                         continue;
                     }
                 }
+                // a second occurrence of bytes that are also present earlier in the segment
+                let dup = p.entries[..pos].iter().any(|e| *e == p.entries[pos]);
+                let rel = if dup { "duplicate-entry" } else { rel };
                 return Err(Fail::new(
                     format!("chain:{kind}:accepted:{rel}"),
                     format!(
@@ -556,7 +559,7 @@ pub fn judge(b: &Built, op: &Op, obs: &mut Obs) -> Result<u64, Fail> {
 
 /// Pristine checks on a built segment: independent verification of what the API signed, key-id
 /// header contents, RPC round trip. Returns evaluations.
-pub fn pristine(spec: &SegSpec, b: &Built, obs: &mut Obs) -> Result<u64, Fail> {
+pub fn pristine(spec: &SegSpec, b: &Built, _obs: &mut Obs) -> Result<u64, Fail> {
     let p = pool();
     let api = !matches!(spec.producer, Producer::Reference { .. });
     for (i, r) in b.recs.iter().enumerate() {
